@@ -67,7 +67,7 @@ class Status(with_metaclass(HTTPSemantic)):
 	def reason(self, reason):
 		self.set((self.__code, reason))
 
-	STATUS_RE = re.compile(br"^([1-5]\d{2})(?:\s+([\s\w]*))?\Z")  # the reason phrase may be empty (RFC 7230 Section 3.1.2)
+	STATUS_RE = re.compile(br"^([1-5]\d{2})(?:\s+([\s\x21-\x7e]*))?\Z")  # reason-phrase: any visible ASCII ('Non-Authoritative Information'), may be empty (RFC 7230 Section 3.1.2)
 
 	def __init__(self, code: Optional[int]=None, reason: Optional[bytes]=None) -> None:
 		"""
